@@ -641,6 +641,30 @@ func genBuffer(r *hx.Rand) bcaseT {
 		}
 		k.Progs = append(k.Progs, p)
 	}
+	if !k.Custom && r.Chance(1, 25) {
+		// an output that is down for a while and comes back: a burst of consecutive failed writes, then good ones —
+		// buffered and flushed, or written directly
+		var p []bopT
+		seq := 0
+		buffered := r.Chance(2, 3)
+		if buffered {
+			p = append(p, bopT{K: "S"})
+		}
+		for i, n := 0, r.Range(5, 9); i < n; i++ {
+			p = append(p, bopT{K: "L", L: &logT{Seq: seq, Lvl: 3, Derived: r.Chance(1, 4), Fail: true}})
+			seq++
+		}
+		for i, n := 0, r.Range(1, 3); i < n; i++ {
+			p = append(p, lg(seq, 3, r.Chance(1, 4)))
+			seq++
+		}
+		if buffered {
+			p = append(p, bopT{K: "F"})
+		}
+		p = append(p, lg(seq, 3, false))
+		k.Progs[0] = p
+		return k
+	}
 	// most histories start buffering early and end with a flush, so that "not lost" has something to say
 	if r.Chance(3, 4) {
 		k.Progs[0] = append([]bopT{{K: "S"}}, k.Progs[0]...)
@@ -659,6 +683,8 @@ func genBuffer(r *hx.Rand) bcaseT {
 func lg(seq, lvl int, derived bool) bopT {
 	return bopT{K: "L", L: &logT{Seq: seq, Lvl: lvl, Derived: derived}}
 }
+
+func fl(seq int) bopT { return bopT{K: "L", L: &logT{Seq: seq, Lvl: 3, Fail: true}} }
 
 // fixed witnesses with their schedules
 func fixedBuffer() []bcaseT {
@@ -690,6 +716,9 @@ func fixedBuffer() []bcaseT {
 		{Custom: true, Progs: [][]bopT{{S, lg(0, 3, false), {K: "H"}, F}}, Sched: []stepT{{G: 0}, {G: 0}, {G: 0}, {G: 0}, {G: 0}}},
 		// K20f: a slog.Logger obtained before StartBuffering bypasses the buffer
 		{Progs: [][]bopT{{S, lg(0, 3, false), {K: "L", L: &logT{Seq: 1, Lvl: 3, Stale: true}}, F}}, Sched: r0(4)},
+		// the output is down for six writes and comes back: the records after the burst must still come out
+		{Progs: [][]bopT{{S, fl(0), fl(1), fl(2), fl(3), fl(4), fl(5), lg(6, 3, false), lg(7, 3, true), F, lg(8, 3, false)}}, Sched: r0(11)},
+		{Progs: [][]bopT{{fl(0), fl(1), fl(2), fl(3), fl(4), fl(5), lg(6, 3, false)}}, Sched: r0(7)},
 		// the documented use: start, log, flush on one goroutine; level filtering; shutdown
 		{Progs: [][]bopT{{S, lg(0, 1, false), lg(1, 0, false), lg(2, 3, true), F, lg(3, 2, false), {K: "H"}, lg(4, 3, false), lg(5, 3, true)}}, Sched: r0(9)},
 	}
